@@ -5,9 +5,9 @@ SPEC = {
     'claimed': False,
     'theorems': ['C29_crash_consistent_partial', 'C29_resume_same_final_partial',
                  'C29_history_crash_consistent_partial', 'C29_history_resume_partial',
-                 'C29_example_history_valid', 'C29_split_batch_unsafe'],
+                 'C29_redeliver_same_final_partial', 'C29_example_history', 'C29_split_batch_unsafe'],
     'allowed_axioms': [],
-    'shard': 4,
+    'shard': 12,
     'rule': 'a factory test node builds executed block trees rooted at the genesis block (one coins transfer to a '
             'fresh address per block, so every block has its own state root). A history = tree + delivery order. '
             'Per history one child process delivers the whole order to a node whose blockchain and store databases '
@@ -40,21 +40,28 @@ SPEC = {
         'block hashes and state roots are abstract identifiers; block execution is an oracle (every block of the '
         'tree executes); which store/connect/disconnect operations a delivery causes comes from the C25 '
         'fork-choice model, instrumented to emit them in code order',
+        'two guards of the model\'s connect step restate tests the code made earlier on the same block: the height '
+        'test of maybeAcceptBlock (height = parent node\'s height + 1, the parent node being the tip) and "the '
+        'block\'s rows are stored" (dbMaybeStoreBlock succeeded before connectBestChain / LoadBlockByHash found '
+        'the block in reorganizeChain; NoneRollback is off); with them the theorems need no validity hypothesis on '
+        'the operation sequence',
         'start-up is modelled for chains shorter than the 128-block cache and 10240-block index windows (every '
         'height from 0 is read)',
     ],
     'assumptions': [
-        'the operation sequence of the history satisfies ops_valid (a block is stored only while it is not on the '
-        'best chain; a connected block has the next height and is not on the chain): hypothesis of the theorems, '
-        'evaluated on every generated history by check_case, not proved from the C25 model',
+        'among the genesis block and the delivered blocks a hash identifies a block (hypothesis hash_identifies of the '
+        'history theorems; check_case evaluates it on every generated tree)',
         'default test configuration: mavl store without prefix/prune/MVCC, sequence recording on, not a para '
         'chain, no finalizer, consensus may roll back, quick tx index on, single writer (ProcessBlock from one '
         'goroutine)',
+        'C29_redeliver_same_final_partial models the restarted node\'s index as the recovered chain only and its '
+        'deliveries by the C25 model (blockExists\' database lookups and the skip of dbMaybeStoreBlock for stored '
+        'headers are not in that model); the Go side is checked on the final records after re-delivery',
         'redelivery after restart uses the same order; generated histories satisfy the C25 guard (unique heaviest '
         'block at height >= 12) or are linear, so the final chain does not depend on the order',
     ],
     'manifest': {
-        'level_text': 'partial: unbounded Coq theorems over all valid operation sequences and all crash indices '
+        'level_text': 'partial: unbounded Coq theorems over all operation sequences / all delivery histories and all crash indices '
                       '(recovered chain = chain after a prefix of the operations; height, last block, height->hash, '
                       'block rows, tx index, total difficulties and the states of the chain agree; start-up succeeds; '
                       'resuming ends in the uninterrupted run\'s chain), assuming each LevelDB write is atomic and '
@@ -62,8 +69,8 @@ SPEC = {
                       'reorganisation histories and restarted: its writes equal the model\'s log prefix and its '
                       'recovered and resumed records equal the model\'s and satisfy the spec oracle',
         'level_note': 'LevelDB write atomicity/durability assumed; fault = process termination between writes; '
-                      'execution is an oracle; ops_valid of the fork-choice model\'s operation sequences is checked '
-                      'per case, not proved; wallet/mempool/p2p stores are not covered',
+                      'execution is an oracle; re-delivery after restart is proved at the level of the C25 fork-choice '
+                      'model; wallet/mempool/p2p stores are not covered',
         'technique': 'Coq proof (invariant over operation histories + prefix decomposition of the write log) + '
                      'process-level fault injection at every durable write with in-kernel correspondence check',
     },
